@@ -432,6 +432,7 @@ def c_tensor_mttkrp(ctx, case):
 
 _PERM_V = dict(
     wrong_length="'Invalid permutation order' (order.size != ndims)",
+    too_long_covers_all="same: an order longer than ndims that still names every mode (one mode repeated) is not a permutation",
     repeated_mode="'Invalid permutation order' — an order with a repeated mode is not a permutation",
     all_ones="same, the all-ones order (tensor.py:1265 special-cases it)",
     entry_equal_bound="same, an entry equal to ndims",
@@ -444,6 +445,10 @@ def bad_order(N, viol, a, b):
     p = ident[a % N:] + ident[: a % N]
     if viol == "wrong_length":
         return p[:-1] if b % 2 and N > 1 else p + [N]
+    if viol == "too_long_covers_all":
+        q = list(p)
+        q.insert((a + b) % (N + 1), p[b % N])
+        return q
     if viol == "repeated_mode":
         q = list(p)
         q[b % N] = q[(b + 1) % N]
